@@ -97,6 +97,11 @@ fn sorted<T: Ord + Clone>(v: &[T]) -> Vec<T> {
 }
 
 fn check_value(kind: &str, value: u32, st: &mut Stats) -> R {
+    check_value_in(kind, value, st, true)
+}
+
+/// `full` = every header context; otherwise the default one and one picked by the value
+fn check_value_in(kind: &str, value: u32, st: &mut Stats, full: bool) -> R {
     let g = golden();
     let ge = g.enums.get(kind).unwrap();
     let k = kinds::kind_from_name(kind).unwrap();
@@ -133,32 +138,50 @@ fn check_value(kind: &str, value: u32, st: &mut Stats) -> R {
     // any number of parameter words short of the full list / one word more is rejected, and the full
     // list is consumed identically, under every version the header may declare (the statement ties the
     // consumed kinds to the value alone)
-    const VERSIONS: [(u8, u8); 11] = [(1, 6), (1, 0), (1, 1), (1, 2), (1, 3), (1, 4), (1, 5), (1, 7), (2, 0), (0, 0), (255, 255)];
-    for ver in VERSIONS {
+    // header contexts: eleven versions under the case's generator word, and every registered tool id
+    // (0..=48, with a zero and a non-zero tool version) plus 0xffff under version 1.6. The statement
+    // ties the consumed kinds to the value alone - not to the version, not to who wrote the binary.
+    let mut contexts: Vec<((u8, u8), Option<u32>)> = [(1u8, 6u8), (1, 0), (1, 1), (1, 2), (1, 3), (1, 4), (1, 5), (1, 7), (2, 0), (0, 0), (255, 255)].iter().map(|v| (*v, None)).collect();
+    for tool in 0..=48u32 {
+        contexts.push(((1, 6), Some(tool << 16)));
+        contexts.push(((1, 3), Some((tool << 16) | 0x000e)));
+    }
+    contexts.push(((1, 6), Some(0xffff_0000)));
+    if !full {
+        let pick = 1 + (crate::engine::hash64(&value.to_le_bytes()) as usize ^ kind.len()) % (contexts.len() - 1);
+        contexts = vec![contexts[0], contexts[pick]];
+    }
+    let hw = |ver: (u8, u8), generator: Option<u32>| {
+        let mut h = header_words(ver, 100);
+        if let Some(g) = generator {
+            h[2] = g;
+        }
+        h
+    };
+    for (ver, generator) in contexts {
+        let what = format!("header version {}.{}, generator {:#x}", ver.0, ver.1, generator.unwrap_or_else(ambient_generator));
         for cut in 0..pw.len() {
-            let mut b2 = header_words(ver, 100);
+            let mut b2 = hw(ver, generator);
             b2.extend(carrier(kind, value, &pw[..cut]));
             let (_, r2) = parse_words_collect(&b2)?;
             if r2.is_ok() {
-                return Err(f("parser-needs-all-parameters", format!("{:?} accepted with {} of its {} parameter words (header version {}.{})", op, cut, pw.len(), ver.0, ver.1)));
+                return Err(f("parser-needs-all-parameters", format!("{:?} accepted with {} of its {} parameter words ({})", op, cut, pw.len(), what)));
             }
         }
         let mut more = pw.clone();
         more.push(5);
-        let mut b3 = header_words(ver, 100);
+        let mut b3 = hw(ver, generator);
         b3.extend(carrier(kind, value, &more));
         let (_, r3) = parse_words_collect(&b3)?;
         if r3.is_ok() {
-            return Err(f("parser-rejects-surplus", format!("{:?} accepted with a surplus word (header version {}.{})", op, ver.0, ver.1)));
+            return Err(f("parser-rejects-surplus", format!("{:?} accepted with a surplus word ({})", op, what)));
         }
-        if ver != (1, 6) {
-            let mut b4 = header_words(ver, 100);
-            b4.extend(carrier(kind, value, &pw));
-            let (c4, r4) = parse_words_collect(&b4)?;
-            let same = r4.is_ok() && c4.insts.first().map(|i| i.operands == inst.operands).unwrap_or(false);
-            if !same {
-                return Err(f("reflection-vs-parser", format!("{:?} with its full parameter list is consumed differently under header version {}.{}: {:?} / {:?}", op, ver.0, ver.1, r4.as_ref().err().map(|e| format!("{}", e)), c4.insts.first().map(|i| i.operands.clone()))));
-            }
+        let mut b4 = hw(ver, generator);
+        b4.extend(carrier(kind, value, &pw));
+        let (c4, r4) = parse_words_collect(&b4)?;
+        let same = r4.is_ok() && c4.insts.first().map(|i| i.operands == inst.operands).unwrap_or(false);
+        if !same {
+            return Err(f("reflection-vs-parser", format!("{:?} with its full parameter list is consumed differently under {}: {:?} / {:?}", op, what, r4.as_ref().err().map(|e| format!("{}", e)), c4.insts.first().map(|i| i.operands.clone()))));
         }
     }
     // capabilities / extensions
@@ -384,7 +407,7 @@ fn sub_random_masks(input: &[u8], st: &mut Stats) -> R {
         let kind = ["ImageOperands", "LoopControl", "MemoryAccess", "TensorAddressingOperands", "ExecutionMode", "Decoration"][cs.below(6)];
         let ge = g.enums.get(kind).unwrap();
         let v = if ge.is_mask { cs.u32() & ge.all_bits } else { ge.values[cs.below(ge.values.len())].value };
-        check_value(kind, v, st)?;
+        check_value_in(kind, v, st, false)?;
         st.evaluations += 1;
     }
     st.evaluations -= 1;
